@@ -35,14 +35,15 @@ def chunks_at(N, cuts):
 class C02(Spec):
     PROP = 'C02'
     MODEL = 'queue'
-    PROOF_MODULES = ['PsiProofs.C02']
+    PROOF_MODULES = ['PsiProofs.C02', 'PsiProofs.C02ND']
     DESIGN_REF = 'DESIGN.md §6 C02'
     TRUST = [
         'modelled, not verified: ndarray slicing/np.concatenate/np.zeros semantics in pop_buffer; the generator '
         'protocol (reset/next/n_samples_remaining/is_complete) of stim factories is modelled as "a waveform of '
         'n_samples() samples consumed front to back" (chunk invariance of the factories themselves is C01)',
         'zero-length waveforms are outside the model (driver refuses them); pop_buffer(decrement=False) is modelled '
-        '(popBufferND) for the correspondence only, no theorem covers it',
+        '(popBufferND) and covered for pause-free histories mixing both kinds of request (PsiProofs.C02ND); the log '
+        'entry\'s `decrement` flag that `requeue` consults is not modelled (no pauses after a decrement=False request)',
         'the model follows queue.py with notes/C03_fix_1.diff and notes/C04_fix_*.diff applied',
     ]
     ASSUMPTIONS = ['every stimulus has at least one sample', 'delays are >= 0 (negative: ValueError, checked)',
